@@ -9,6 +9,9 @@ import OmbottModel.Drv.RouteUrl
 import OmbottModel.Drv.Multipart
 import OmbottModel.Drv.Body
 import OmbottModel.Drv.Wsgi
+import OmbottModel.Drv.Forms
+import OmbottModel.Drv.RouterEdit
+import OmbottModel.Drv.TsProps
 /-! Dispatch of a protocol line to the area handlers.  `State` holds the few models that are
 driven as state machines across lines (router, multipart feed, header store). -/
 namespace Drv
@@ -37,6 +40,9 @@ def step (st : State) (line : String) : State × String :=
     | "mp" => pure? (Multipart.handle rest)
     | "body" => pure? (Body.handle rest)
     | "wsgi" => pure? (Wsgi.handle rest)
+    | "forms" => pure? (Forms.handle rest)
+    | "redit" => pure? (RouterEdit.handle rest)
+    | "tsprops" => pure? (TsProps.handle rest)
     | _ => (st, "bad-op")
 
 end Drv
